@@ -821,7 +821,9 @@ func init() {
 		if err := write("cases_C13_arch", "", "N * bstr * bstr", "check_archives", acases, 2); err != nil {
 			return err
 		}
-		return writeJSON(o.out, "stats.json", map[string]any{"delegations": ndel, "messages": nmsg, "direct_violations": direct,
+		covDirect, covRuns := covC13(o.seed) // gen_cov.go: block store options, NewInvocation, Extract / Parse refusals, wrapped receipts
+		direct = append(direct, covDirect...)
+		return writeJSON(o.out, "stats.json", map[string]any{"delegations": ndel, "messages": nmsg, "direct_violations": direct, "cov_direct_runs": covRuns,
 			"distinct_shapes": len(shapes), "cross_message_history_steps": nhist, "samples": samples,
 			"model_cases": map[string]int{"delegation_block_sequences": len(dcases), "message_block_sequences": len(bcases), "message_root_blocks": len(mcases), "archive_root_blocks": len(acases)}})
 	}
